@@ -5,8 +5,10 @@
    secp256k1 scalar/point codecs, cmp config.UnmarshalBinary validation, FROST config restore).
    [_refuted] theorems are findings about the code as written; [_v0] names refer to the code BEFORE the fix:
    commits 3cad471 (Message), 7b3b4da (Exponent), 96ab1f0 (point prefix), 8307514 (ValidatePrime), 3216d4d (cmp
-   Config.UnmarshalBinary): the models of the old code are kept as small *_v0 definitions and their refutations
-   stay here as regression examples, next to the positive theorems that hold for the repaired code. *)
+   Config.UnmarshalBinary), and the six C15 patches (OT setup marshalling; validating UnmarshalCBOR for frost,
+   taproot, doerner configs, PreSignature and Signature; Message refuses empty sender / protocol; NewSession refuses
+   ids that are not valid UTF-8): the models of the old code are kept as small *_v0 / *_v1 definitions and their
+   refutations stay here as regression examples, next to the positive theorems that hold for the repaired code. *)
 From Coq Require Import String.
 From Coq Require Import List NArith ZArith Bool Znumtheory.
 From MPS Require Import Model.Bytes Model.Sx Model.Secp256k1 Model.Cbor Proofs.CborProofs.
@@ -36,8 +38,9 @@ Proof. exact message_roundtrip. Qed.
 Print Assumptions C15_message_roundtrip.
 
 Theorem C15_message_unmarshal_roundtrip : forall m0 m,
-  wf_message m = true -> message_unmarshal m0 (message_encode m) = (m, false).
+  real_message m = true -> message_unmarshal m0 (message_encode m) = (m, false).
 Proof. exact message_unmarshal_roundtrip. Qed.
+Print Assumptions C15_message_unmarshal_roundtrip.
 
 Theorem C15_message_encode_inj : forall m1 m2,
   wf_message m1 = true -> wf_message m2 = true -> message_encode m1 = message_encode m2 -> m1 = m2.
@@ -46,28 +49,39 @@ Print Assumptions C15_message_encode_inj.
 
 (* a decoding failure is reported and leaves the receiver as it was (holds since fix 3cad471) *)
 Theorem C15_message_unmarshal_reports_errors : forall m0 bs,
-  message_decode m0 bs = None -> message_unmarshal m0 bs = (m0, true).
+  message_decode empty_message bs = None -> message_unmarshal m0 bs = (m0, true).
 Proof. exact message_unmarshal_reports_errors. Qed.
 Print Assumptions C15_message_unmarshal_reports_errors.
 
 Theorem C15_message_unmarshal_ok_iff : forall m0 bs m,
-  message_unmarshal m0 bs = (m, false) <-> message_decode m0 bs = Some m.
+  message_unmarshal m0 bs = (m, false) <->
+  message_decode empty_message bs = Some m /\ nonempty (m_from m) && nonempty (m_protocol m) = true.
 Proof. exact message_unmarshal_ok_iff. Qed.
 Print Assumptions C15_message_unmarshal_ok_iff.
 
-(* still true: a Message whose From is not valid UTF-8 (party.ID is an arbitrary Go string) is written without
-   complaint and cannot be restored -- the failure is reported now *)
+(* never a silently empty object (holds since the patch that refuses messages without sender or protocol) *)
+Theorem C15_message_unmarshal_never_empty : forall m0 bs m,
+  message_unmarshal m0 bs = (m, false) -> m_from m <> [] /\ m_protocol m <> [].
+Proof. exact message_unmarshal_never_empty. Qed.
+Print Assumptions C15_message_unmarshal_never_empty.
+Theorem C15_message_null_refused : forall m0,
+  message_unmarshal m0 [246%N] = (m0, true) /\ message_unmarshal m0 [160%N] = (m0, true).
+Proof. exact message_null_refused. Qed.
+
+(* at the level of Message alone it is still true that a From which is not valid UTF-8 is written without complaint
+   and cannot be restored (reported as an error); no session produces such a message: round.NewSession refuses ids
+   that are not valid UTF-8 (checked by the harness, class session-ids) *)
 Theorem C15_message_invalid_utf8_not_restorable :
   exists m, message_decode empty_message (message_encode m) = None /\
             message_unmarshal empty_message (message_encode m) = (empty_message, true).
 Proof. exact message_invalid_utf8_not_restorable. Qed.
 Print Assumptions C15_message_invalid_utf8_not_restorable.
 
-(* todo-statement "an input that is not a message never yields an empty message with a nil error": still REFUTED
-   by the one-byte input 0xf6 (fxamacker: null into a struct is a no-op); {} (0xa0) behaves the same in Go *)
-Theorem C15_message_null_silently_empty_refuted : message_unmarshal empty_message [246%N] = (empty_message, false).
-Proof. exact message_null_silently_empty. Qed.
-Print Assumptions C15_message_null_silently_empty_refuted.
+(* the code between fix 3cad471 and the patch: 0xf6 gave an empty Message and a nil error *)
+Theorem C15_message_v1_null_silently_empty_refuted :
+  message_unmarshal_v1 empty_message [246%N] = (empty_message, false).
+Proof. exact message_unmarshal_v1_null_silently_empty. Qed.
+Print Assumptions C15_message_v1_null_silently_empty_refuted.
 
 (* the old code: UnmarshalBinary returned nil whatever happened *)
 Theorem C15_message_unmarshal_v0_never_errors : forall m0 bs, snd (message_unmarshal_v0 m0 bs) = false.
@@ -251,18 +265,52 @@ Theorem C15_config_v0_zero_modulus_panics_refuted :
   /\ forall ab id x y NN l acc, process_publics_v0 ab id x y NN (Panic :: l) acc = Panic.
 Proof. exact (conj pub_entry_zero_modulus_panics process_publics_v0_panic_propagates). Qed.
 
-(* ---- FROST keygen.Config: nothing is validated on restore ---- *)
-Theorem C15_frost_unmarshal_sound_refuted :
-  exists bs c, frost_unmarshal bs = Ok c /\ ~ valid_frost c /\
+(* ---- the other stored types: each has a validating UnmarshalCBOR now; whatever it accepts is valid, and it never
+        panics (recover) ---- *)
+Theorem C15_frost_unmarshal_sound : forall bs c, frost_unmarshal bs = Ok c -> valid_frost c.
+Proof. exact frost_unmarshal_sound. Qed.
+Print Assumptions C15_frost_unmarshal_sound.
+Theorem C15_frost_unmarshal_total : forall bs, frost_unmarshal bs <> Panic.
+Proof. exact frost_unmarshal_total. Qed.
+
+Theorem C15_taproot_unmarshal_sound : forall bs c, taproot_unmarshal bs = Ok c -> valid_taproot c.
+Proof. exact taproot_unmarshal_sound. Qed.
+Print Assumptions C15_taproot_unmarshal_sound.
+Theorem C15_taproot_unmarshal_total : forall bs, taproot_unmarshal bs <> Panic.
+Proof. exact taproot_unmarshal_total. Qed.
+
+Theorem C15_doerner_unmarshal_sound : forall n bs c, doerner_unmarshal n bs = Ok c -> valid_doerner n c.
+Proof. exact doerner_unmarshal_sound. Qed.
+Print Assumptions C15_doerner_unmarshal_sound.
+Theorem C15_doerner_unmarshal_total : forall n bs, doerner_unmarshal n bs <> Panic.
+Proof. exact doerner_unmarshal_total. Qed.
+
+Theorem C15_signature_unmarshal_sound : forall bs sg, signature_unmarshal bs = Ok sg -> valid_signature sg.
+Proof. exact signature_unmarshal_sound. Qed.
+Print Assumptions C15_signature_unmarshal_sound.
+Theorem C15_signature_unmarshal_total : forall bs, signature_unmarshal bs <> Panic.
+Proof. exact signature_unmarshal_total. Qed.
+
+Theorem C15_presig_unmarshal_sound : forall bs p, presig_unmarshal bs = Ok p -> valid_presig p.
+Proof. exact presig_unmarshal_sound. Qed.
+Print Assumptions C15_presig_unmarshal_sound.
+Theorem C15_presig_unmarshal_total : forall bs, presig_unmarshal bs <> Panic.
+Proof. exact presig_unmarshal_total. Qed.
+
+(* the old FROST restore (plain cbor.Unmarshal): nothing was validated; the witness is refused now *)
+Theorem C15_frost_unmarshal_sound_v0_refuted :
+  exists bs c, frost_unmarshal_v0 bs = Ok c /\ ~ valid_frost c /\
                f_share c = 0%Z /\ f_threshold c = (-1)%Z /\ f_shares c = [] /\ f_chain c = None.
-Proof. exact frost_unmarshal_sound_refuted. Qed.
-Print Assumptions C15_frost_unmarshal_sound_refuted.
+Proof. exact frost_unmarshal_sound_v0_refuted. Qed.
+Print Assumptions C15_frost_unmarshal_sound_v0_refuted.
+Theorem C15_frost_unmarshal_refuses_v0_witness : frost_unmarshal (encode frost_bad_tree) = Err 2.
+Proof. exact frost_unmarshal_refuses_v0_witness. Qed.
 
 (* ---- CBOR null in a field of Go interface type (curve.Scalar, curve.Point) that the Empty* constructor
         pre-set: the decoder panics; seen on cmp.Config (ECDSA, ElGamal, every public point) and on
         frost.Config / doerner configs / PreSignature / Signature.  For cmp.Config the panic is recovered into an
-        error since fix 3216d4d (C15_config_unmarshal_total); for the types restored by plain cbor.Unmarshal the
-        todo-statement "restore never panics" stays REFUTED *)
+        error since fix 3216d4d (C15_config_unmarshal_total) and for the other types by their validating
+        UnmarshalCBOR (C15_*_unmarshal_total); the panic of the field decoders themselves is what the recover catches *)
 Theorem C15_null_interface_field_panics_refuted :
   fld_scalar CNull = Panic /\ fld_point CNull = Panic /\
   config_of_tree (CMap [ (CText k_id, CNull); (CText k_threshold, CNull); (CText k_ecdsa, CNull);
@@ -301,5 +349,12 @@ Proof. split; vm_compute; reflexivity. Qed.
 Example C15_ex_oracle : exists pt : Z -> bool,
   pt (P0 / 2)%Z = true /\ pt (Q0 / 2)%Z = true /\ pt (PC / 2)%Z = true /\ pt (PS / 2)%Z = true.
 Proof. exists (fun _ => true). repeat split. Qed.
+Example C15_ex_real_message :
+  real_message (mkMessage None (tstr "alice") [] (tstr "cmp/sign") 3 (Some []) true (Some [1%N; 2%N])) = true.
+Proof. reflexivity. Qed.
+Example C15_ex_signature_accepts :
+  signature_unmarshal (encode (CMap [ (CText k_R, CBytes (point_encode secp_G)); (CText k_S, CBytes (scalar_encode 5)) ]))
+  = Ok (secp_G, 5%Z).
+Proof. vm_compute. reflexivity. Qed.
 Example C15_ex_valid_pedersen : valid_pedersen 15 (Some 2%Z) (Some 4%Z).
 Proof. exists 2%Z, 4%Z. repeat split; try reflexivity; try discriminate; vm_compute; congruence. Qed.
